@@ -191,6 +191,11 @@ def judge(x, m, kw, viol, tags):
     if not np.array_equal(y3[fin_mask], yf):
         oracles.V(viol, 'C19', 'derived deterministic kwargs give a different scaling than the user kwargs',
                   derived={k: (v if not isinstance(v, np.generic) else v.item()) for k, v in do_kw.items()}, **wit)
+    # the documented default mode spelled out: same scaling, non-detections still transparent
+    y4 = np.asarray(scaler.apply_scaling(x.copy(), m, mode='do', **copy.deepcopy(kw)), dtype=float)
+    if not np.array_equal(y4, y, equal_nan=True):
+        oracles.V(viol, 'C19', "explicit mode='do' scales differently from the default mode (or is not blind to non-detections)",
+                  y=[float(v) for v in y4[:12]], **wit)
     back = np.asarray(scaler.apply_scaling(y.copy(), m, **copy.deepcopy(undo_kw)), dtype=float)
     ax = float(np.abs(fin).max())
     ay = float(np.abs(yf).max())
